@@ -19,9 +19,12 @@ theorem pyOr_mult (n : Nat) : Shapes.pyOr ((n : Int) - 1) 15 + 1 = (mult16 n : I
     rfl
 
 /-- `((w − 1) | 15) + 1` -/
-theorem normunet_w_mult_eq (n : Nat) : normunet_w_mult n = (mult16 n : Int) := pyOr_mult n
-theorem normunet_h_mult_eq (n : Nat) : normunet_h_mult n = (mult16 n : Int) := pyOr_mult n
-theorem normunet3d_z_mult_eq (n : Nat) : normunet3d_z_mult n = (mult16 n : Int) := pyOr_mult n
+theorem normunet_w_mult_eq (n : Nat) : normunet_w_mult n = (mult16 n : Int) := by
+  first | exact pyOr_mult n | simp only [normunet_w_mult, Int.toNat_natCast]
+theorem normunet_h_mult_eq (n : Nat) : normunet_h_mult n = (mult16 n : Int) := by
+  first | exact pyOr_mult n | simp only [normunet_h_mult, Int.toNat_natCast]
+theorem normunet3d_z_mult_eq (n : Nat) : normunet3d_z_mult n = (mult16 n : Int) := by
+  first | exact pyOr_mult n | simp only [normunet3d_z_mult, Int.toNat_natCast]
 
 /-- `math.floor((m − n)/2)`, `math.ceil((m − n)/2)` -/
 theorem normunet_w_pad_lo_eq (m n : Nat) (h : n ≤ m) : normunet_w_pad_lo m n = (((m - n) / 2 : Nat) : Int) := by
@@ -49,13 +52,22 @@ theorem normunet_pad_order_eq : normunet_pad_order = ["w_pad", "h_pad"] ∧ norm
     normunet_pad_modes = ["constant"] := by decide
 
 /-- `pad_to_pow_of_2` -/
+theorem pow2_model (n k : Nat) : (n : Int) + (pow2Lo k n : Int) + (pow2Hi k n : Int) = (padPow2 k n : Int) := by
+  simp only [pow2Lo, pow2Hi, padPow2]
+  generalize 2 ^ k = P
+  split <;> omega
+
 theorem pow2_eq (n k : Nat) : pow2_lo n k = (pow2Lo k n : Int) ∧ pow2_hi n k = (pow2Hi k n : Int) ∧
     (n : Int) + pow2_lo n k + pow2_hi n k = (padPow2 k n : Int) := by
-  have e : ((2 : Int) ^ ((k : Int).toNat)) = ((2 ^ k : Nat) : Int) := by
-    rw [Int.toNat_natCast, Int.natCast_pow]; rfl
-  simp only [pow2_lo, pow2_hi, pow2Lo, pow2Hi, padPow2, e, Int.fdiv_eq_ediv_of_nonneg _ (by decide : (0 : Int) ≤ 2)]
-  generalize 2 ^ k = P
-  refine ⟨?_, ?_, ?_⟩ <;> (repeat' split) <;> (try simp only [decide_eq_true_eq] at *) <;> omega
+  first
+  | (have e : ((2 : Int) ^ ((k : Int).toNat)) = ((2 ^ k : Nat) : Int) := by
+       rw [Int.toNat_natCast, Int.natCast_pow]; rfl
+     simp only [pow2_lo, pow2_hi, pow2Lo, pow2Hi, padPow2, e, Int.fdiv_eq_ediv_of_nonneg _ (by decide : (0 : Int) ≤ 2)]
+     generalize 2 ^ k = P
+     refine ⟨?_, ?_, ?_⟩ <;> (repeat' split) <;> (try simp only [decide_eq_true_eq] at *) <;> omega)
+  | (-- fallback form (kernel skipped): the generated definitions are the model's
+     simp only [pow2_lo, pow2_hi, Int.toNat_natCast, true_and]
+     exact pow2_model n k)
 
 theorem pow2_tables : pow2_pad_modes = ["constant"] ∧ unet3d_unpad = [[2, 4, 2, 5], [3, 2, 3, 3], [4, 0, 4, 1]] := by decide
 
